@@ -1,5 +1,5 @@
 """C11 — A fatal message and everything before it reach the log file."""
-import concurrent.futures, glob, json, os, re, shutil, subprocess, tempfile
+import concurrent.futures, glob, gzip, json, os, re, shutil, subprocess, tempfile
 import vlib
 
 META = {
@@ -36,6 +36,7 @@ META = {
 }
 
 MODEL_TREE = {'ONE': 'oooF', 'ONER': 'oooR', 'FLU': 'oFR', 'FLUN': 'oF(F)', 'FLUT': 'o(gF)F', 'FLUC': 'o(yR)F', 'FLUB': 'oBF',
+              'ONEZ': 'oooZ', 'FLUZ': 'oZ',
               'ONEQ': 'oooR', 'ONEA1': 'oooF', 'ONEA2': 'oooF', 'FLU1': 'oF', 'FLUP': 'oF(l)'}
 KIND_NAMES = {'oF': 'plain', 'oR': 'rotating', 'oFR': 'both', 'o(F)': 'nested', 'oF(oR(F))': 'nested-deep',
               'ONE': 'one-line configure(path, sync)', 'ONER': 'one-line configure(path, maxFileSize, sync)',
@@ -52,6 +53,9 @@ KIND_NAMES = {'oF': 'plain', 'oR': 'rotating', 'oFR': 'both', 'o(F)': 'nested', 
               'oQ': 'rotating sink whose rotation rename fails (name occupied by a directory)',
               'okK': 'rotating sink s0.log keeping 3 files next to rotating sink ws0.log keeping everything',
               'oKk': 'rotating sink ws1.log keeping everything next to rotating sink s1.log keeping 3 files',
+              'oZ': 'rotating sink, 1000-byte limit, unlimited file count, Compression (rotated files gzipped)',
+              'ONEZ': 'one-line configure(path, 1000, 0, Compression, sync): several rotations on one date',
+              'FLUZ': 'fluent: format().sendToFile(app, 1000, 0, Compression): several rotations on one date',
               'ONEQ': 'one-line configure(path, 1000) whose rotation rename fails',
               'ONEA1': 'one-line configure(async=true) then resetOwnThread()', 'ONEA2': 'one-line configure(async=true), event loop ran and quit',
               'N(FN)NF': 'null handler entries at both levels', 'SoF': 'slow handler keeps another thread inside the logger',
@@ -192,7 +196,7 @@ def forgive_faults(files, reference, zids):
     return ';'.join(out)
 
 
-SINK_LETTERS = 'FRrDBqQkK'
+SINK_LETTERS = 'FRrDBqQkKZ'
 
 
 def parse_sinks(txt):
@@ -283,8 +287,9 @@ def read_sink(d, k, sc, hint=()):
     for i in hint:
         want[i] = want.get(i, 0) + 1
     rot = []
-    for p in glob.glob(os.path.join(d, base + '.*.log')):
-        m = re.match(r'w?s\d+\.(\d{4}-\d{2}-\d{2})\.(\d+)\.log$', os.path.basename(p))
+    # rotated files <base>.<date>.<n>.log, with the Compression option <base>.<date>.<n>.log.gz (read gunzipped)
+    for p in glob.glob(os.path.join(d, base + '.*.log')) + glob.glob(os.path.join(d, base + '.*.log.gz')):
+        m = re.match(r'w?s\d+\.(\d{4}-\d{2}-\d{2})\.(\d+)\.log(\.gz)?$', os.path.basename(p))
         if m:
             rot.append((m.group(1), int(m.group(2)), p))
     paths = [p for _, _, p in sorted(rot) if not os.path.isdir(p)] + [os.path.join(d, base + '.log')]
@@ -293,6 +298,12 @@ def read_sink(d, k, sc, hint=()):
     for p in paths:
         try:
             data = open(p, 'rb').read()
+            if p.endswith('.gz'):
+                try:
+                    data = gzip.decompress(data)
+                except (OSError, EOFError, ValueError) as e:
+                    defects.append('unreadable archive %s (%s)' % (os.path.basename(p), type(e).__name__))
+                    continue
         except FileNotFoundError:
             defects.append('missing file ' + os.path.basename(p))
             continue
@@ -419,6 +430,12 @@ def scenarios(chk):
     for tree, th in (('oQ', 'main'), ('ONEQ', 'main'), ('oQ(Q)F', 'sec')):
         add(tree, 'fatal', th, [('m', 99)] * 30, 13, 'blocked-rename')
     add('oQ', 'kill', 'main', [('m', 99)] * 25, 13, 'blocked-rename')
+    # a rotating sink WITH the Compression option, a file name with a suffix (s<k>.log), no file-count limit, a small
+    # size limit: >= 3 rotations on one date before the fatal message; every rotated file is an archive of its own
+    # (<base>.<date>.<n>.log.gz), so everything logged before the fatal message is still in the files of the sink
+    for tree, th, n in (('oZ', 'main', 40), ('ONEZ', 'main', 40), ('FLUZ', 'sec', 40), ('oZ(Z)F', 'sec', 55), ('oZ', 'main', 9)):
+        add(tree, 'fatal', th, [('m', 99)] * n, 13, 'compressed-rotation')
+    add('oZ', 'kill', 'main', [('m', 99)] * 35, 13, 'compressed-rotation')
     # a logger configured asynchronous that has become synchronous again (resetOwnThread(), event loop finished)
     for tree in ('ONEA1', 'ONEA2'):
         for ml in ([], [('m', 10)] * 3, [('m', 20480)] * 3):
